@@ -122,6 +122,20 @@ WHAT = {
     'C19-6': ('eval_f64 wrapper rejects expressions longer than 256 bytes', 'the printed form of `2^1000` (302 characters) does not read back'),
     'C20-4': ('eval_number parser cancels a double unary minus', '`-(-x)` with x = i64::MIN: Integer(MIN) vs Float(-2^63)'),
     'C20-5': ('eval_f64 `^`: `powi` when the exponent *node* is a whole-number literal', '`1.3^(1+2)` vs `1.3^@` with 3.0'),
+    'C05-7': ('eval_f64 `^`: `base.sqrt()` when the exponent is exactly 0.5', '`(-1/0)^0.5` = NaN, `(-0)^0.5` = -0.0'),
+    'C05-8': ('eval_f64 wrapper: `if result == 0.0 { 0.0 } else { result }`', 'a result of -0.0 loses its sign'),
+    'C06-7': ('eval_i64 shifts through `checked_shl(count as u32)` / `checked_shr`', 'counts congruent to 0..63 mod 2^32: `1<<4294967296` = 1'),
+    'C06-8': ('eval_i64 tokenizer: literal accumulated in a u64 and cast to i64', 'literals in 2^63 .. 2^64-1 wrap'),
+    'C04-7': ('eval_number prefix `+`: operand parsed at Additive level', '`2^+3*4` = 4096'),
+    'C04-8': ('eval_i64 `*`: `(a/b)*c` evaluated as `a*c/b`', 'non-exact quotients: `7/2*4` = 14'),
+    'C09-7': ('`Number::from(f64)`: round-trip test `(v as i64) as f64 == v`', 'exactly 2^63 becomes Integer(i64::MAX)'),
+    'C09-8': ('eval_number wrapper passes a Float placeholder through `Number::from`', '|@| >= 2^53 or @ = -0.0'),
+    'C11-6': ('eval_decimal `med`: `select_nth_unstable`', 'even counts of 18 or more arguments in some orders'),
+    'C11-7': ('eval_i64 parser: the six aggregate argument blocks folded into one helper that rejects an empty list', '`avg()` is Err instead of 0'),
+    'C03-8': ('eval_f64 `find_item_list`: a `)` directly after a `,` ends the list', '`max(1,2,)` = 2'),
+    'C03-9': ("`superscript_digit_to_digit` as a range `'⁰'..='⁹'` (all five evaluators)", 'U+2071..U+2073 count as digits inside a run: `2²ⁱ`'),
+    'C10-8': ('eval_decimal `x!`: fractional test through `scale() > 0`', 'integer-valued decimals with a scale (`3.0!`) go through gamma'),
+    'C13-8': ('eval_number parser: superscript `²` builds `Multiply(x, x)`', '`2.0²` is Float(4.0) while `2.0^2` is Integer(4)'),
 }
 
 
